@@ -365,6 +365,17 @@ func (p *probeState) onExit(id int, ok bool, dump string) {
 		}
 		return
 	}
+	// a frame that was refused up-front (no snapshot was taken: depth limit, value above the balance, nothing
+	// authorized, wrong authorized nonce) must leave EVERYTHING as it was at the pre marker, nonces included. The only
+	// legitimate exception is an address collision of CREATE2 / of CREATE without creator nonce bump, which is found
+	// after the creator's nonce bump (as in Ethereum): there at most that one nonce may have moved.
+	if !ok && !pf.hasEntry && now != pf.atPre {
+		mayCollide := ni.a.kind == 'N' && (ni.a.two || createMayCollide)
+		if !mayCollide || !onlyNonceBump(pf.atPre, now) {
+			p.report("refused-frame-left-a-trace:"+frameDesc(ni.a), fmt.Sprintf("frame %d (%s) was refused before its snapshot but the state changed: at the pre marker %s at exit %s",
+				id, frameDesc(ni.a), pf.atPre, now))
+		}
+	}
 	// what precedes the snapshot: nothing for the four call kinds; for CREATE/CREATE2/AUTHCALL only the
 	// creator's / authority's nonce bump (as in Ethereum for CREATE; "frame entered" = snapshot point)
 	if pf.hasEntry {
@@ -699,7 +710,7 @@ func opAct(g *gen, op string) []*act {
 	case "create":
 		return []*act{{kind: 'N', id: g.id(), value: 1, body: &frame{acts: []*act{{kind: 'S', k: 2, v: 5}}, end: "retcode", endTag: 3}}}
 	case "create2":
-		return []*act{{kind: 'N', id: g.id(), two: true, salt: 9, value: 0, body: &frame{end: "retcode", endTag: 4}}}
+		return []*act{{kind: 'N', id: g.id(), two: true, mayCollide: true, salt: 9, value: 0, body: &frame{end: "retcode", endTag: 4}}}
 	case "authcall":
 		return []*act{{kind: 'A', id: g.id(), auth: "b30", authNonce: 0, addr: "b21", value: 0, body: &frame{end: "stop"}}}
 	case "authcallvalue":
@@ -775,6 +786,13 @@ func runSearch(a map[string]string) {
 				emitViolation(v)
 			}
 		}
+		// log indices: Log.Index counts the surviving logs of the block; whatever failed frames did in between,
+		// the logs of the block in transaction order must be numbered 0, 1, 2, ...
+		if d := logIndexOracle(h, blk); d != "" {
+			v := violation{Key: "log-index:not-consecutive", Desc: d, Replay: map[string]interface{}{"prefix": p.prefix[:len(p.prefix)-len(blk.txs)], "ops": p.prefix[len(p.prefix)-len(blk.txs):]}}
+			p.viols = append(p.viols, v)
+			emitViolation(v)
+		}
 		classes[class]++
 		for _, v := range p.viols {
 			if _, ok := byKey[v.Key]; !ok {
@@ -804,7 +822,7 @@ func runSearch(a map[string]string) {
 		case "create":
 			return &act{kind: 'N', id: g.id(), value: value, body: body}
 		case "create2":
-			return &act{kind: 'N', id: g.id(), two: true, salt: 5, value: value, body: body}
+			return &act{kind: 'N', id: g.id(), two: true, mayCollide: true, salt: 5, value: value, body: body}
 		case "authcall":
 			return &act{kind: 'A', id: g.id(), auth: "b30", authNonce: 0, addr: "b22", value: value, body: body}
 		}
@@ -968,9 +986,16 @@ func runSearch(a map[string]string) {
 			{kind: 'N', id: g.id(), body: &frame{end: "retcode", endTag: 1}},
 			{kind: 'C', id: g.id(), ck: "call", addr: "b21", body: &frame{acts: []*act{{kind: 'L', k: 0, v: 12}}, end: "revert"}},
 		}, end: "stop"}}
+		// a transaction whose first LOG sits in a sub-frame that reverts (the rolled-back log is then the only log of
+		// the transaction so far), followed by surviving LOGs here and in the next transactions
+		t0 := &txn{hash: 7, origin: "b10", target: "b22", rootID: 1, blk: blk, body: &frame{acts: []*act{
+			{kind: 'C', id: g.id(), ck: "call", addr: "b21", body: &frame{acts: []*act{{kind: 'L', k: 0, v: 13}}, end: "revert"}},
+			{kind: 'C', id: g.id(), ck: "delegatecall", addr: "b21", body: &frame{acts: []*act{{kind: 'L', k: 1, v: 14}, {kind: 'L', k: 0, v: 15}}, end: "invalid"}},
+			{kind: 'L', k: 0, v: 16},
+		}, end: "stop"}}
 		t2 := &txn{hash: 2, origin: "b10", target: "b21", rootID: 1, blk: blk, body: &frame{acts: []*act{{kind: 'L', k: 0, v: 21}}, end: "stop"}}
 		t3 := &txn{hash: 3, origin: "b10", target: "b22", rootID: 1, blk: blk, body: &frame{acts: []*act{{kind: 'L', k: 0, v: 31}}, end: "revert"}}
-		blk.txs = []*txn{t1, t2, t3}
+		blk.txs = []*txn{t0, t1, t2, t3}
 		runBlock(blk, "cross-tx")
 	}
 	// 2a. the unmodified block loop (VMExecutor.Execute): blocks of flat transactions (no child frames), for
@@ -1106,6 +1131,9 @@ func runSearch(a map[string]string) {
 // realLoopOracle runs a block of flat transactions through the unmodified block loop and checks the receipts
 func realLoopOracle(h *harness, blk *block) string {
 	answers, _ := h.runRealBlock(blk)
+	if d := logIndexOracle(h, blk); d != "" {
+		return d
+	}
 	for i, tx := range blk.txs {
 		var want []string
 		ok := strings.HasPrefix(answers[i], "ok ")
@@ -1151,4 +1179,32 @@ func historyCfg(i int) blockCfg {
 		{sched: "robin", height: rb.Proposal007Block - 1},
 	}
 	return all[i%len(all)]
+}
+
+// logIndexOracle: the surviving logs of a block, taken per transaction hash in execution order, carry Index 0,1,2,...
+// (independent of the code under test: it is what "index of the log in the block" means). Blocks that reuse a
+// transaction hash are skipped (GetLogs then mixes two transactions).
+func logIndexOracle(h *harness, blk *block) string {
+	seen := map[common.Hash]bool{}
+	var order []common.Hash
+	for _, hh := range h.hashes {
+		if seen[hh] {
+			return ""
+		}
+		seen[hh] = true
+		order = append(order, hh)
+	}
+	if !common.IsProposal013() {
+		order = []common.Hash{{}} // no Prepare: every log is filed under the zero hash
+	}
+	want := uint(0)
+	for _, hh := range order {
+		for _, l := range h.adb.GetLogs(hh) {
+			if l.Index != want {
+				return fmt.Sprintf("log %s carries Index %d, it is log number %d of the block", h.logName(l), l.Index, want)
+			}
+			want++
+		}
+	}
+	return ""
 }
